@@ -122,7 +122,12 @@ def call(op: str, a: dict) -> dict:
                 v = K.tovec(bool(a["withW"]))
                 return {"st": "ok", "vec": [bind.num(x) for x in v]}
             elif op == "vec_roundtrip":
-                res = ttb.ktensor.from_vector(K.tovec(True), K.shape, True)
+                # the vector stays with the caller (an optimiser's iterate) and a second object is built from it:
+                # re-parameterising one object may change neither the vector nor the other object
+                vec = K.tovec(True)
+                res = ttb.ktensor.from_vector(vec, K.shape, True)
+                twin = ttb.ktensor.from_vector(vec, K.shape, True)
+                extra["_vec"] = (vec, vec.copy(), twin, twin.full().data.copy())
                 v2 = ttb.ktensor.from_vector(K.tovec(False), K.shape, False)
                 if not all(np.array_equal(x, y) for x, y in zip(v2.factor_matrices, K.factor_matrices)):
                     return {"st": "roundtrip-without-weights-differs"}
@@ -175,6 +180,10 @@ def call(op: str, a: dict) -> dict:
                 res.redistribute(0)
                 out["preds"]["operand_unchanged_after_reparameterising_result"] = bool(
                     np.allclose(K.full().data, F0, atol=1e-9))
+                if "_vec" in extra:
+                    vec, vec0, twin, twin0 = extra["_vec"]
+                    out["preds"]["operand_unchanged_after_reparameterising_result"] &= bool(
+                        np.array_equal(vec, vec0) and np.array_equal(twin.full().data, twin0))
             for k, v in extra.items():
                 if not k.startswith("_"):
                     out["preds"][k] = v
